@@ -20,7 +20,8 @@ CHECKS = {
         "lean_modules": ["SycVerif.Props.C17"],
         "theorems": [R + "C17_matchPath_iff_fits", R + "C17_fit_unique", R + "C17_captures_align",
                      R + "C17_captures_reproduce", R + "C17_urlSegments_clean",
-                     R + "C17_url_ignores_query_fragment", R + "C17_matchRoute_total", R + "C17_matchRoute_first"],
+                     R + "C17_url_ignores_query_fragment", R + "C17_matchRoute_total", R + "C17_matchRoute_first",
+                     R + "C17_matchRoute_complete", R + "C17_matchRoute_notFound"],
         "engines": [{"harness": "native", "engine": "route"}],
         "status": "full statement proved over the model (all patterns, all paths, all enums of the modelled shape)",
         "rule": "exhaustive: every well-formed pattern over {a,b,<p>,<p..>} (len<=3 quick / <=4 thorough) x every path over {a,b,c} (len<=4 / <=5); "
